@@ -209,7 +209,7 @@ def _register_shared():
          cases=[dict(ncat=n) for n in (2, 3)], trusted=["metric axioms", "itertools.compress"])(_C01.u_links)
 
 
-_register_shared()
+# _register_shared() is called by the driver after this module is fully imported (no import cycles)
 
 
 # ---------------------------------------------------------------------------------------------------------
